@@ -557,7 +557,8 @@ def main(argv):
         comp = [h for h in sel if results[h.name]["status"] == "COMPILE"]
         if comp:
             text = open(results[comp[0].name]["log"], errors="replace").read()
-            broken = set(rel for rel in files if re.search(r"-->\s*\S*harness/%s:\d+" % re.escape(rel), text))
+            # (only ERROR locations count: warnings carry `-->` lines too)
+            broken = set(rel for rel in files if re.search(r"(?m)^error[^\n]*\n\s*-->\s*\S*harness/%s:\d+" % re.escape(rel), text))
 
             def need(rel, seen=None):
                 seen = seen if seen is not None else set()
